@@ -1088,8 +1088,14 @@ func addRandomTable(x *fx, add func(*fn)) {
 			}
 			return res{err: err}
 		}})
-	// a PRG after short setup histories; the restored states stay far from the documented
-	// 2^38-byte output period except for the classes that say so.
+	// a PRG after short setup histories. The package documents that avoiding the cycling of the
+	// 2^38-byte keystream is the caller's responsibility: restored states that are then read from
+	// use counters below 2^38-2^22 (all-0xff seed and nonce, bounded counter); crafted counters at
+	// or beyond the period are only passed to the constructor itself (RestoreChacha20PRG above).
+	ffBounded := std8(st)[7].V.([]byte)
+	for i := 0; i < 8; i++ {
+		ffBounded[44+i] = byte(uint64(1<<38-1<<22) >> (8 * i))
+	}
 	type mkPRG = func() (random.Rand, error)
 	fresh := func() (random.Rand, error) { return random.NewChacha20PRG(x.seed32, cust) }
 	prgP := listP("prg", 0,
@@ -1104,16 +1110,7 @@ func addRandomTable(x *fx, add func(*fn)) {
 		})},
 		val{C: "restored(Store)", V: mkPRG(func() (random.Rand, error) { return random.RestoreChacha20PRG(st) })},
 		val{C: "restored(counter=2^32)", V: mkPRG(func() (random.Rand, error) { return random.RestoreChacha20PRG(mkState(1 << 32)) })},
-		val{C: "restored(ff(52B))", V: mkPRG(func() (random.Rand, error) { return random.RestoreChacha20PRG(states.Vals[7].V.([]byte)) })},
-		val{C: "restored(counter=2^63)", V: mkPRG(func() (random.Rand, error) { return random.RestoreChacha20PRG(mkState(1 << 63)) })})
-	prgRead := prgP
-	prgP = param{Name: "prg", Base: 0}
-	for _, v := range prgRead.Vals {
-		if v.C != "restored(ff(52B))" {
-			// the state at the very end of the documented 2^38-byte period is driven through Read only
-			prgP.Vals = append(prgP.Vals, v)
-		}
-	}
+		val{C: "restored(ff-seed,ff-nonce,counter=2^38-2^22)", V: mkPRG(func() (random.Rand, error) { return random.RestoreChacha20PRG(ffBounded) })})
 	get := func(a any) (random.Rand, error) {
 		p, err := a.(mkPRG)()
 		if err != nil {
@@ -1123,7 +1120,7 @@ func addRandomTable(x *fx, add func(*fn)) {
 	}
 	const g = "random.(*genericPRG)."
 	add(&fn{Name: "random.Rand.Read/Store", Covers: []string{"random.(*chachaCore).Read", "random.(*chachaPRG).Store"}, Plain: true,
-		Params: []param{prgRead, listP("buffer", 4, val{C: "nil", V: -1}, val{C: "empty", V: 0}, val{C: "1B", V: 1}, val{C: "63B", V: 63}, val{C: "64B", V: 64},
+		Params: []param{prgP, listP("buffer", 4, val{C: "nil", V: -1}, val{C: "empty", V: 0}, val{C: "1B", V: 1}, val{C: "63B", V: 63}, val{C: "64B", V: 64},
 			val{C: "65B", V: 65}, val{C: "4KiB", V: 4096}, val{C: "2^16B", V: p16})},
 		Call: func(a []any) res {
 			p, err := get(a[0])
